@@ -283,6 +283,9 @@ def diffs(ctx, f, x, n=None, **options):
         callprec = ctx.prec
         y, norm, workprec = hsteps(ctx, f, x, B, callprec, **options)
         for k in xrange(A, B):
+            # the caller may have changed the precision since the
+            # generator was last resumed
+            callprec = ctx.prec
             try:
                 ctx.prec = workprec
                 d = ctx.difference(y, k) / norm**k
